@@ -321,3 +321,19 @@ def rule_mypy_str_bytes(ctx: Ctx, rule: str) -> None:
     ctx.count('mypy_diagnostics', len(lines))
     ctx.ob(rule, 'package/mypy-str-bytes', not hits, hits[0].split(': error:')[0] if hits else 'wcmatch/', 'no str/bytes type confusion', 'clean' if not hits else '; '.join(h.strip()[:160] for h in hits[:3]),
            witness="WcMatch(b'.', None) must use a bytes catch-all pattern: every bytes file name would raise TypeError and be swallowed as an error")
+
+
+def rule_sequence_separator(ctx: Ctx, rule: str) -> None:
+    ctx.text(rule, 'FORCEWIN: `/` and `\\` are interchangeable, also inside a bracket expression of a name pattern: the arm of '
+                   'WcParse._sequence that keeps a `/` inside the class must emit the separator class unless unix rules apply '
+                   '(as _references does for escaped separators)')
+    repo = ctx.repo
+    sq = repo.func(WP, 'WcParse._sequence')
+    q = fq(sq)
+    arms = [s for s in q.stmts(lambda n: isinstance(n, ast.Assign)) if norm_src(s.targets[0]) == 'value' and
+            any(t.replace('"', "'") == "c == '/'" and p == 'T' for t, p in q.guards(s))]
+    ok = bool(arms) and all(('self.unix' in norm_src(a.value) or 'self.bare_sep' in norm_src(a.value)) or
+                            any('self.unix' in t for t, _p in q.guards(a)) for a in arms)
+    ctx.ob(rule, f'{WP}:WcParse._sequence/separator-in-brackets', ok, repo.loc(WP, arms[0] if arms else sq.node),
+           'value = separator class when not unix', '; '.join(norm_src(a) for a in arms) or 'arm not found', note='F18',
+           witness="fnmatch('a\\\\b', 'a[/]b', flags=FORCEWIN) is False although fnmatch('a\\\\b', 'a/b', flags=FORCEWIN) is True")
